@@ -17,7 +17,9 @@ def run(prop, tier):
     traces = []
     if prop == 'C13':       # formats that have both reader families
         items = [it for it in items if it['cfg']['fmt'] not in
-                 ('cloud_rain', 'lateral_boundary')]
+                 ('cloud_rain', 'lateral_boundary', 'landuse')]
+    if prop == 'C14':       # land use has no time steps (not in C14's scope)
+        items = [it for it in items if it['cfg']['fmt'] != 'landuse']
     if prop in ('C09', 'C13'):
         args = [(i + 1, it) for i, it in enumerate(items)]
         res = run_cases(camx.case_encode_read, args, timeout=60,
